@@ -99,6 +99,10 @@ type GenesisRoundTrip struct {
 	NewSnap      *Snapshot
 	Continued    bool
 	InvBroken    []string
+	// RawDiff: first difference between the raw key/value content of the two modules' stores on
+	// the exporting and on the importing chain ("" = identical): rows, index entries and the ORM's
+	// auto-increment sequences, i.e. also what a decoded-row comparison and a re-export cannot see
+	RawDiff string
 }
 
 type TxRecord struct {
@@ -848,6 +852,7 @@ func (w *World) execGenesisRestart(st *Step) {
 			}
 			rt.NewChain = c2
 			rt.NewSnap = obs2.Take(c2)
+			rt.RawDiff = rawModuleDiff(w.Chain.RawDump(ctx), c2.RawDump(c2.WorkCtx()))
 			ictx := c2.WorkCtx()
 			for _, inv := range c2.Invariants {
 				if msg, broken := safeInv(inv, ictx); broken {
@@ -877,6 +882,35 @@ func (w *World) execGenesisRestart(st *Step) {
 	if w.Checker != nil {
 		w.Checker.AfterRestart(w, rc)
 	}
+}
+
+// rawModuleDiff compares the ecocredit and data stores of two raw dumps.
+func rawModuleDiff(a, b []KV) string {
+	pick := func(xs []KV) map[string]string {
+		m := map[string]string{}
+		for _, kv := range xs {
+			if kv.Store == "ecocredit" || kv.Store == "data" {
+				m[kv.Store+"/"+fmt.Sprintf("%x", kv.K)] = fmt.Sprintf("%x", kv.V)
+			}
+		}
+		return m
+	}
+	ma, mb := pick(a), pick(b)
+	for _, k := range sortedKeys(ma) {
+		vb, ok := mb[k]
+		if !ok {
+			return "key " + k + " (value " + ma[k] + ") exists only on the exporting chain"
+		}
+		if vb != ma[k] {
+			return "key " + k + ": " + ma[k] + " on the exporting chain, " + vb + " on the importing chain"
+		}
+	}
+	for _, k := range sortedKeys(mb) {
+		if _, ok := ma[k]; !ok {
+			return "key " + k + " (value " + mb[k] + ") exists only on the importing chain"
+		}
+	}
+	return ""
 }
 
 func gEco(g *GenesisDoc) []byte {
